@@ -20,6 +20,7 @@ import (
 	"runtime/pprof"
 	"strconv"
 	"strings"
+	"syscall"
 	"time"
 
 	_ "github.com/vipnode/vipnode/v2/internal/verif/checks"
@@ -38,6 +39,11 @@ func main() {
 	log.SetOutput(io.Discard)
 	debug.SetGCPercent(200)
 
+	if os.Getenv("VERIF_NO_RLIMIT") == "" {
+		// a request that makes the code under test allocate without bound must fail loudly, not eat the host
+		lim := uint64(24 << 30)
+		syscall.Setrlimit(syscall.RLIMIT_AS, &syscall.Rlimit{Cur: lim, Max: lim})
+	}
 	if pf := os.Getenv("VERIF_PROF"); pf != "" {
 		f, _ := os.Create(pf)
 		pprof.StartCPUProfile(f)
